@@ -9,6 +9,7 @@ C05 - inheritance is computed as Python computes it.  Decides consumers and the 
   R05.6 class-private names (__x) are not matched across classes (Python's name mangling)
   R05.7 an empty docstring ends the docstring search; sibling branches do not share the cycle-detection path
   R05.8 the class page drops the first inheritance chain only when it is the class itself
+  R05.9 the documentation sources of a member are searched along the whole linearisation of ITS class (no exit, no hand-over to a base member's own search)
 Does not decide: that mro._merge is C3 (an algorithmic equality with type.__mro__).
 """
 from __future__ import annotations
@@ -259,6 +260,28 @@ def run(repo: Repo, chk: Check, thorough: bool = False) -> None:
                'it from the inherited members, although at run time `_Base__check` and `_Derived__check` are unrelated attributes', f.loc)
     chk.require('R05.6', 4)
 
+    # ------------------------------------------------------------------ R05.9
+    # attribute lookup for a member of class C goes along the linearisation of C, whatever class an intermediate definition sits in.  docsources()
+    # therefore consults every class of `self.parent.mro()` itself: a loop that leaves at the first hit, or hands the rest of the search to the base
+    # member's own docsources() (which continues along the BASE's linearisation), finds Base.m before B.m in the diamond C(A, B)
+    from ..util import loop_exits as _loop_exits
+    ds = repo.func(f'{M}.Inheritable.docsources')
+    mloops = [n for n in ds.walk() if isinstance(n, ast.For) and any(isinstance(c, ast.Call) and call_name(c) == 'mro' for c in ast.walk(n.iter))]
+    if not mloops:
+        raise AnalysisError('R05.9: Inheritable.docsources no longer loops over the linearisation of its class')
+    for lp in mloops:
+        exits = _loop_exits(lp)
+        hand = [c for st in lp.body for c in ast.walk(st) if isinstance(c, ast.Call) and call_name(c) == 'docsources']
+        recv_ok = 'self.parent' in norm(lp.iter)
+        ok9 = not exits and not hand and recv_ok
+        chk.ob('R05.9', f'{M}.Inheritable.docsources :: every class of the linearisation of the member\'s own class is consulted', ok9,
+               f'for ... in {norm(lp.iter)}: no exit, no delegation' if ok9 else
+               (f'the loop over `{norm(lp.iter)}` ' + ('leaves at the first hit' if exits else 'hands the search over to the base member\'s own docsources()' if hand else
+                                                      'does not walk the linearisation of self.parent') +
+                ': in the diamond `C(A, B)` with undocumented `C.m`, `A.m` and documented `B.m`, `Base.m` the docstring of Base.m (or none) is shown, Python reports B.m\'s'),
+               repo.loc(ds.mod, lp))
+    chk.require('R05.9', 1)
+
     # ------------------------------------------------------------------ R05.7
     # (a) the search for the first docstring along the linearisation stops at the first source that HAS a docstring, also an empty one
     #     (at run time `__doc__ == ''` is what the attribute lookup yields; nothing further along the MRO is inherited)
@@ -310,6 +333,9 @@ def run(repo: Repo, chk: Check, thorough: bool = False) -> None:
     cfb = CFG(bt)
     dels = [n for n in bt.walk() if isinstance(n, ast.Delete) and any(isinstance(t, ast.Subscript) and norm(t.slice) == '0' for t in n.targets)] + \
            [n for n in bt.walk() if isinstance(n, ast.Expr) and isinstance(n.value, ast.Call) and call_name(n.value) == 'pop' and n.value.args and norm(n.value.args[0]) == '0']
+    # ... or slices the head off (`baselists[1:]`)
+    dels += [cfb.stmt_of(n) for n in bt.walk() if isinstance(n, ast.Subscript) and isinstance(n.slice, ast.Slice) and isinstance(n.slice.lower, ast.Constant) and
+             isinstance(n.slice.lower.value, int) and n.slice.lower.value >= 1 and 'baselists' in norm(n.value)]
     for d_ in dels:
         own = any(pol and isinstance(x, ast.Compare) and len(x.ops) == 1 and isinstance(x.ops[0], (ast.Eq, ast.Is)) and
                   ('self.ob' in (norm(x.left), norm(x.comparators[0]))) for x, pol in cfb.dominating_tests(d_))
